@@ -272,6 +272,24 @@ func KeyedMutex.UnlockKey
   exit_ensures[fresh-mutex]  actarg(0, 1) != nil && fresh(actarg(0, 1))
   exit_ensures[same-mutex]   actkind(1) == K_Unlock && actobj(1) == ref(actres(0, 0))
 
+// ClearKey: exactly one Delete of that key on the key map (it forgets the key's mutex; the statement covers it only
+// when no goroutine holds or awaits the key).
+func KeyedMutex.ClearKey
+  property C09
+  mode atomic
+  opt actions 1
+  requires km != nil
+  rely forall k T :: {has(absmap(addr(km.m)), k)} has(absmap(addr(km.m)), k) ==> absmap(addr(km.m))[k] != nil
+  exit_ensures[map-action] actkind(0) == K_Delete && actobj(0) == ref(addr(km.m)) && actarg(0, 0) == key
+
+func KeyedRWMutex.ClearKey
+  property C09
+  mode atomic
+  opt actions 1
+  requires km != nil
+  rely forall k T :: {has(absmap(addr(km.m)), k)} has(absmap(addr(km.m)), k) ==> absmap(addr(km.m))[k] != nil
+  exit_ensures[map-action] actkind(0) == K_Delete && actobj(0) == ref(addr(km.m)) && actarg(0, 0) == key
+
 func KeyedRWMutex.LockKey
   property C09
   mode atomic
